@@ -159,6 +159,9 @@ type crashRecorder struct {
 	syncSeq  map[string]int         // rel path -> seq of the last sync
 	evCount  int
 	opWrites map[string]bool
+	// promised: number of leading mutations whose durability was PROMISED by a returned call (a Sync
+	// batch, a Put/Delete under SyncStrategy Always, Sync(), Close()), whatever flushes were observed.
+	promised int
 }
 
 func newCrashRecorder(root string) *crashRecorder {
@@ -229,7 +232,11 @@ func (c *crashRecorder) point(event string, ret bool) *crashPoint {
 	for k, v := range c.synced {
 		syn[k] = v
 	}
-	return &crashPoint{Op: c.op, Ret: ret, Event: event, EvSeq: c.evCount, Snap: takeSnap(c.root), Synced: syn, Durable: c.durable()}
+	d := c.durable()
+	if c.promised > d {
+		d = c.promised
+	}
+	return &crashPoint{Op: c.op, Ret: ret, Event: event, EvSeq: c.evCount, Snap: takeSnap(c.root), Synced: syn, Durable: d}
 }
 
 // durable returns 1 + the largest index of a mutation all of whose written files were synced after
@@ -420,6 +427,15 @@ func recordCrashRun(cfg Cfg, keys []string, ops []Op, from int, res *TaskResult)
 		}
 		run.Acked = append(run.Acked, ar.Err == nil)
 		run.States = append(run.States, copyModel(w.Model))
+		if ar.Err == nil {
+			wrote := len(rec.lastW[i]) > 0 // a call that appended nothing (empty batch, Delete of an absent key) promises nothing
+			switch {
+			case op.K == "sync", op.K == "restart":
+				rec.promised = i + 1
+			case wrote && (op.K == "batch" && op.Arg == 1 || (op.K == "put" || op.K == "del") && cfg.Sync == 1):
+				rec.promised = i + 1
+			}
+		}
 		if rec.active {
 			rec.points = append(rec.points, rec.point("(after "+op.String()+" returned)", true))
 		}
